@@ -58,6 +58,8 @@ def interpret(m, f, sep_given, more_flags=None):
     for n in pre:
         if isinstance(n, ast.Assign) and isinstance(n.targets[0], ast.Name) and isinstance(const_val(n.value, None), int):
             env[n.targets[0].id] = Sym(c=const_val(n.value))
+    pre_later = [n for n in pre if isinstance(n, ast.If) or (isinstance(n, ast.Assign) and isinstance(n.targets[0], ast.Name) and
+                                                            not isinstance(const_val(n.value, None), int))]
     table_scans = []
     lists = {}          # list name -> [tuple of forms] appended per iteration
     direct = []         # slices appended directly inside the loop
@@ -135,6 +137,12 @@ def interpret(m, f, sep_given, more_flags=None):
                 env[cvar] = env[cvar] + Sym({'G%d' % k: 1})
             else:
                 raise Undecided('statement %s' % norm(st)[:60])
+    # integer locals computed before the loop under the flags (sep_len = 0 if sep is None else len(sep)); what is not an integer is skipped
+    for n in pre_later:
+        try:
+            run([n], 0)
+        except Undecided:
+            pass
     # the cursor is symbolic C at loop entry if it was 0: keep the constant (offsets are absolute), i.e. C = that constant
     for k in (1, 2):
         run(loop.body, k)
